@@ -376,14 +376,14 @@ def check_san_writer(ctx, f, L):
     # as part of it
     from .names import names as role_names
     try:
-        own = role_names(f).exclusive_helpers(name)
+        own = role_names(f).exclusive_helpers(name, loops=True)
     except Exception:
         own = set()
     noin = lambda n_: False if ("generate_moves" in n_ or n_.endswith("::play") or n_.endswith("::try_play")) else (True if n_ in own else None)
     ps = sym.SymExec(f, b, inline=noin, max_paths=200000).run()
     ctx.saw("%s: %d paths" % (b.key, len(ps)))
     MV = ("param", "mv")
-    here = lambda e_: e_.depth == 0 or e_.fn in own
+    here = lambda e_: e_.depth == 0 or e_.fn.split("::{closure")[0] in own
     back_ok = rook_sq_ok = 0
     n = 0
     for p in ps:
